@@ -73,8 +73,30 @@ class SimpleLib:
         return os.path.join(d, self.name + ".h")
 
 
+def full_collision_group(rng, k):
+    """k names whose signatures collide in BOTH the primary (shift 5) and the secondary (shift 11) hash: the per-character
+    shift has period 24 in either hash, so swapping two characters 24 positions apart changes neither."""
+    base = [rng.choice("abcdefghijklmnopqrstuvwxyz") for _ in range(28)]
+    base[0], base[24] = "p", "q"
+    base[1], base[25] = "r", "s"
+    base[2], base[26] = "t", "u"
+    names = []
+    for mask in range(8):
+        b = list(base)
+        for bit, (i, j) in enumerate(((0, 24), (1, 25), (2, 26))):
+            if mask >> bit & 1:
+                b[i], b[j] = b[j], b[i]
+        names.append("fc_" + "".join(b))
+    # the prefix "fc_" shifts every position by 3 alike, which keeps the distance of 24
+    rng.shuffle(names)
+    return names[:k]
+
+
 def generate(rng, libname, k):
-    groups = find_groups(rng, k, want=rng.choice([1, 2]))
+    if k >= 4:
+        groups = [full_collision_group(rng, k)]
+    else:
+        groups = find_groups(rng, k, want=rng.choice([1, 2]))
     names = [n for g in groups for n in g]
     extra = [f"plain_{rng.randrange(10 ** 6)}" for _ in range(3)]
     h = [f"#ifndef {libname.upper()}_H", f"#define {libname.upper()}_H", '#include "vfpub.h"', '#include "libgen_rt.h"',
